@@ -37,9 +37,14 @@ def all_small_shapes(max_nodes: int, types: list[str]) -> list[list[dict]]:
     return out
 
 
+ID_SEPARATORS = [",", " ", "|", ";", "'", '"', "%", "_", "/", "\\", ":", "\u00e9", "*", "?", ", "]
+
+
 def materialise(tree: list[dict], job_id: str, name: str, t0: int, rng: random.Random,
-                span_len: int = 10**6, sibling_perm: bool = False) -> list[dict]:
-    """OTelEvent field dicts for a tree; event ids are unique per job_id."""
+                span_len: int = 10**6, sibling_perm: bool = False, id_sep: str = ".") -> list[dict]:
+    """OTelEvent field dicts for a tree; event ids are unique per job_id.  id_sep: the
+    character(s) between trace id and span index in the span ids (span ids are opaque
+    strings: separators, quotes and SQL wildcards are legal in them)."""
     order = list(range(len(tree)))
     if sibling_perm:
         rng.shuffle(order)
@@ -49,10 +54,11 @@ def materialise(tree: list[dict], job_id: str, name: str, t0: int, rng: random.R
         st = t0 + s["idx"] * span_len
         out.append({
             "job_name": name, "job_id": job_id, "event_type": s["type"],
-            "event_id": f"{job_id}.{s['idx']}", "start_timestamp": st,
+            "event_id": f"{job_id}{id_sep}{s['idx']}", "start_timestamp": st,
             "end_timestamp": st + span_len // 2 + rng.randrange(span_len),
             "application_name": "app",
-            "parent_event_id": None if s["parent_idx"] is None else f"{job_id}.{s['parent_idx']}",
+            "parent_event_id": None if s["parent_idx"] is None
+            else f"{job_id}{id_sep}{s['parent_idx']}",
         })
     return out
 
@@ -87,14 +93,17 @@ def gen_store(rng: random.Random, n_traces: int, names: list[str], types: list[s
         pos = rng.random()
         t0 = base + int(pos * total)
         span_len = rng.choice([10**6, 10**9, 30 * 10**9, 2 * MIN])
-        spans = materialise(tree, jid, name, t0, rng, span_len)
+        sep = "." if rng.random() < 0.75 else rng.choice(ID_SEPARATORS)
+        spans = materialise(tree, jid, name, t0, rng, span_len, id_sep=sep)
         kind = "complete"
         if hostile and n >= 2:
             r = rng.random()
             if r < 0.12:
                 kind = "dangling-leaf"
                 v = rng.choice([s for s in spans if s["parent_event_id"] is not None])
-                v["parent_event_id"] = f"{jid}.missing"
+                # the absent span: one of this trace's own, or one that several broken traces
+                # refer to (e.g. a span of a service whose export never arrived)
+                v["parent_event_id"] = f"{jid}.missing" if rng.random() < 0.6 else "lost-span"
             elif r < 0.2 and n >= 3:
                 kind = "dangling-middle"
                 cand = [s for s in spans if s["parent_event_id"] is not None
